@@ -66,7 +66,7 @@ def gen_case(rng, tier):
             op["ds"] = [rng.randrange(nd) for _ in range(k)]
             op["n_jobs"] = rng.choice(NJOBS)
             op["container"] = rng.choice(("list", "list", "tuple"))
-            op["form"] = rng.choice(("f64", "f64", "f64", "lists", "i64", "stack3d", "view"))
+            op["form"] = rng.choice(("f64", "f64", "f64", "lists", "i64", "stack3d", "view", "f32", "f16"))
             if kind == "empty-in-collection":
                 op["empty_at"] = rng.randrange(k + 1)
         elif kind == "union":
@@ -108,6 +108,8 @@ def _close(a, b, scale, rel=1e-10):
     a, b = np.asarray(a, float), np.asarray(b, float)
     if a.shape != b.shape:
         return False
+    if np.array_equal(a, b, equal_nan=True):        # bit-identical, including identical non-finite entries
+        return True
     return bool(np.all(np.abs(a - b) <= rel * np.abs(b).max(initial=0.0) + 1e-13 * scale + rel * np.abs(b)))
 
 
@@ -233,6 +235,16 @@ def _run(case, sched, world, cfg, dg_json):
                 coll = [w_[:, 0:3:2] for w_ in wide]                              # non-contiguous views
             elif form == "stack3d" and len(coll) >= 2 and len({len(c_) for c_ in coll}) == 1 and len(coll[0]) > 0:
                 coll = np.stack(coll)                                             # one 3-D array of diagrams
+            elif form in ("f32", "f16") and not use2 and "unit" not in cfg and abs(cfg["birth_range"][1]) < 100:
+                # narrow floats: the diagrams *are* the rounded values; the reference is the serial transform of
+                # each element in the very same form (call-style independence, not a comparison across dtypes)
+                dt = np.float32 if form == "f32" else np.float16
+                coll = [c_.astype(dt) for c_ in coll]
+                if all(np.isfinite(c_).all() and (len(c_) == 0 or np.all(c_[:, 1] >= c_[:, 0])) for c_ in coll):
+                    want = [np.asarray(call(site, im.transform, c_, skew=True), float) if len(c_) else np.zeros(resx)
+                            for c_ in coll]
+                else:
+                    coll = [c_.astype(np.float64) for c_ in [D[i] for i in ids]]
             if form != "f64":
                 handed = api_digest(coll)
             if op.get("container") == "tuple" and not isinstance(coll, np.ndarray):
